@@ -36,6 +36,28 @@ fn show(b: &[u8]) -> Result<(String, bool, u64), String> {
     r.map(|_| (s.out, s.tripped, steps))
 }
 
+/// The notation does not depend on the caller's format spec: sign, zero-fill and precision flags are not applied to
+/// the numbers inside the item (padding of the whole output to a width would be tolerated: spaces at either end are
+/// trimmed before comparing). Returns the number of renderings compared.
+fn spec_invariant(r: &Report, sub: &str, b: &[u8], want: &str) -> u64 {
+    let d = minicbor::display(b);
+    let outs = mcx::par::guard(|| [("{:+}", format!("{:+}", d)), ("{:.1}", format!("{:.1}", d)), ("{:12}", format!("{:12}", d)), ("{:>012}", format!("{:>012}", d)), ("{:^+9.2}", format!("{:^+9.2}", d))]);
+    match outs {
+        Ok(outs) => {
+            for (spec, out) in outs.iter() {
+                if out.trim_matches(' ') != want {
+                    r.fail(sub, None, json!({"input_hex": hex(&b[..b.len().min(64)]), "format_spec": spec}), format!("displayed {:?} under this format spec, the documented notation is {:?}", out.chars().take(200).collect::<String>(), want.chars().take(200).collect::<String>()));
+                }
+            }
+            outs.len() as u64
+        }
+        Err(p) => {
+            r.fail(sub, None, json!({"input_hex": hex(&b[..b.len().min(64)])}), format!("display with a format spec panicked: {}", p));
+            0
+        }
+    }
+}
+
 fn total(r: &Report, sub: &str, b: &[u8]) -> bool {
     match show(b) {
         Err(p) => {
@@ -47,6 +69,26 @@ fn total(r: &Report, sub: &str, b: &[u8]) -> bool {
             if tripped {
                 r.fail(sub, Some("display-definite-container-past-end"), json!({"input_hex": hex(b)}), format!("output exceeds 16*len+512 = {} bytes; it starts with {:?}", 16 * b.len() + 512, &out[..out.len().min(60)]));
                 ok = false;
+            }
+            // the documented notation of everything before the first decoding problem, then the problem inline
+            if !tripped {
+                let d = refmodel::render::diag_bytes(b);
+                let good = if d.unjudged {
+                    out.starts_with(&d.prefix)
+                } else if d.problem {
+                    out.starts_with(&d.prefix) && out[d.prefix.len()..].starts_with(" !!! ")
+                } else {
+                    out == d.prefix
+                };
+                if !good {
+                    r.fail(
+                        sub,
+                        None,
+                        json!({"input_hex": hex(b)}),
+                        format!("displayed {:?}; documented: {:?}{}", out, d.prefix, if d.problem { " followed by the decoding problem (\" !!! ..\")" } else if d.unjudged { " .." } else { "" }),
+                    );
+                    ok = false;
+                }
             }
             if steps > 8 * b.len() as u64 + 64 {
                 r.fail(sub, Some("display-definite-container-past-end"), json!({"input_hex": hex(b)}), format!("{} input accesses for {} input bytes (bound 8*len+64)", steps, b.len()));
@@ -63,7 +105,7 @@ pub fn run(r: &Report) {
     {
         let sub = "totality-and-size";
         let maxlen = 3;
-        r.space(sub, true, &format!("all byte strings of length <= {}, the hostile heads, and every truncation / single-byte substitution (14 structural bytes) of the encodings of all trees <= 3 nodes", maxlen), 1);
+        r.space(sub, true, &format!("all byte strings of length <= {}, the hostile heads, and every truncation / single-byte substitution (14 structural bytes) of the encodings of all trees <= 3 nodes: no panic, bounded output and work, and the output is the documented notation of everything before the first decoding problem followed by the inline report (reference display over arbitrary bytes)", maxlen), 1);
         let hs = hostile_heads();
         let trees = trees_up_to(3, &Alphabet::full());
         let subs: [u8; 14] = [0x00, 0x17, 0x18, 0x1b, 0x3b, 0x5f, 0x7f, 0x80, 0x9b, 0xbb, 0xc0, 0xf8, 0xf9, 0xff];
@@ -121,7 +163,7 @@ pub fn run(r: &Report) {
     {
         let sub = "exact-rendering";
         let (n_all, n_more) = if thorough { (4usize, 6usize) } else { (4usize, 5usize) };
-        r.space(sub, true, &format!("all well-formed items <= {} nodes (12-leaf alphabet, valid UTF-8) in every head-width assignment, and all items of {} nodes in shortest heads: output must equal the reference rendering of the documented notation", n_all, n_more), 1);
+        r.space(sub, true, &format!("all well-formed items <= {} nodes (12-leaf alphabet, valid UTF-8) in every head-width assignment, and all items of {} nodes in shortest heads: output must equal the reference rendering of the documented notation; items <= 3 nodes also under 5 caller format specs (sign, precision, width, zero fill), which must not change the notation", n_all, n_more), 1);
         let alpha = Alphabet::full();
         let by = trees_by_size(n_more, &alpha);
         let small: Vec<&Item> = by[..=n_all].iter().flatten().filter(|i| i.utf8_ok()).collect();
@@ -137,7 +179,14 @@ pub fn run(r: &Report) {
                     let b = item.to_bytes();
                     let want = render(item);
                     match show(&b) {
-                        Ok((out, false, _)) if out == want => ok += 1,
+                        Ok((out, false, _)) if out == want => {
+                            ok += 1;
+                            if item.nodes() <= 3 {
+                                let k = spec_invariant(r, sub, &b, &want);
+                                n += k;
+                                ok += k;
+                            }
+                        }
                         Ok((out, tripped, _)) => r.fail(sub, None, json!({"input_hex": hex(&b), "item": item.diag()}), format!("displayed {:?}{}, the documented notation is {:?}", out, if tripped { " (size bound tripped)" } else { "" }, want)),
                         Err(p) => r.fail(sub, None, json!({"input_hex": hex(&b)}), format!("display panicked: {}", p)),
                     }
@@ -165,7 +214,7 @@ pub fn run(r: &Report) {
     // ---- exact rendering of boundary leaf values (each integer / float / simple / string token has its own arm)
     {
         let sub = "leaf-values";
-        r.space(sub, true, "every integer of the 64-bit boundary lattice (both signs, every admissible head width), all 65536 half items, boundary single / double patterns, every simple value, byte strings over all byte values and lengths 0,1,2,23,24,256, text with quotes / backslashes / control / multi-byte characters, tags over the lattice - each alone, inside [x, x], {x: x} and [_ x]", 1);
+        r.space(sub, true, "every integer of the 64-bit boundary lattice (both signs, every admissible head width), all 65536 half items, boundary single / double patterns, every simple value, byte strings over all byte values and lengths 0,1,2,23,24,256, text with quotes / backslashes / control / multi-byte characters, tags over the lattice - each alone, inside [x, x], {x: x} and [_ x], under `{}` and 5 caller format specs (sign, precision, width, zero fill: the notation must not change)", 1);
         let mut leaves: Vec<Item> = Vec::new();
         for v in lattice_int() {
             let it = Item::int(v);
@@ -228,7 +277,14 @@ pub fn run(r: &Report) {
                         let b = item.to_bytes();
                         let want = render(item);
                         match show(&b) {
-                            Ok((out, false, _)) if out == want => ok += 1,
+                            Ok((out, false, _)) if out == want => {
+                                ok += 1;
+                                if want.len() < 200 {
+                                    let k = spec_invariant(r, sub, &b, &want);
+                                    n += k;
+                                    ok += k;
+                                }
+                            }
                             Ok((out, tripped, _)) => r.fail(sub, None, json!({"input_hex": hex(&b[..b.len().min(64)]), "item": item.diag().chars().take(120).collect::<String>()}), format!("displayed {:?}{}, the documented notation is {:?}", out.chars().take(200).collect::<String>(), if tripped { " (size bound tripped)" } else { "" }, want.chars().take(200).collect::<String>())),
                             Err(p) => r.fail(sub, None, json!({"input_hex": hex(&b[..b.len().min(64)])}), format!("display panicked: {}", p)),
                         }
